@@ -147,7 +147,7 @@ def run(ctx):
     for root in sorted(opens):
         if not (root.startswith("<" + SYS) or root.startswith(SYS)):
             continue
-        name = root.rsplit("::", 1)[1]
+        name = root.rsplit("::", 1)[-1]
         if name in OPENERS or name.startswith("kernel_"):
             continue
         for b in ctx.bodies_of(root):
